@@ -69,7 +69,7 @@ def binding_variants(thorough):
     return vs
 
 
-def build_shape(S, topo, carry, bvar, with_y, store, spell):
+def build_shape(S, topo, carry, bvar, with_y, store, spell, reloads=()):
     label, comps, cond, _carries, y_users = topo
     clabel, carried_from, user = carry
     comps = copy.deepcopy(comps)
@@ -91,31 +91,48 @@ def build_shape(S, topo, carry, bvar, with_y, store, spell):
         {'name': 'cons-out', 'stage': S + maxls + 2, 'refs': [[cond, 'output', None], [plain[-1], 'copy', 'f.txt']]},
         {'name': 'cons-same', 'stage': S + maxls, 'refs': [[plain[-1], 'link', None]]},
     ]
-    return {'label': '%s/%s' % (label, clabel), 'S': S, 'comps': comps, 'bindings': bindings, 'cond': cond,
+    return {'label': '%s/%s%s' % (label, clabel, '/reload' if reloads else ''), 'S': S, 'comps': comps,
+            'bindings': bindings, 'cond': cond, 'reloads': list(reloads),
             'cond_file': 'f.txt' if (S + len(comps)) % 2 else None,
             'cond_spell': 'rel' if (cond_ls == 0 and spell == 'rel') else 'abs',
             'consumers': consumers, 'store': store}
 
 
 def shapes(thorough):
-    """The complete, deterministic list of shapes of a tier (simplest first)."""
+    """The complete, deterministic list of shapes (histories) of a tier (simplest first)."""
     out = []
     seen = set()
+
+    def add(sh):
+        key = repr(sh)
+        if key not in seen:
+            seen.add(key)
+            out.append(sh)
+
+    bvs = binding_variants(thorough)
     for topo in topologies(thorough):
         for carry in topo[3]:
             for S in (0, 1):
-                for bi, bvar in enumerate(binding_variants(thorough)):
-                    ys = (False, True) if (thorough and topo[4]) else ((bi % 2 == 1) and bool(topo[4]),)
+                for bi, bvar in enumerate(bvs):
+                    if thorough:
+                        ys = (False, True) if (topo[4] and bi in (0, 1, 3)) else (bool(topo[4]) and bi % 2 == 1,)
+                        stores = (True, False) if bi in (0, 2) else (True,)
+                        spells = ('abs', 'rel') if (S == 0 and bi in (0, 1)) else ('abs',)
+                    else:
+                        ys = ((bi % 2 == 1) and bool(topo[4]),)
+                        stores = ((bi + S) % 4 != 3,)
+                        spells = ('rel' if (S == 0 and bi % 2 == 0) else 'abs',)
                     for with_y in ys:
-                        stores = (True, False) if thorough else ((bi + S) % 4 != 3,)
                         for store in stores:
-                            spells = ('abs', 'rel') if (thorough and S == 0) else ('rel' if (S == 0 and bi % 2 == 0) else 'abs',)
                             for spell in spells:
-                                sh = build_shape(S, topo, carry, bvar, with_y, store, spell)
-                                key = repr(sh)
-                                if key not in seen:
-                                    seen.add(key)
-                                    out.append(sh)
+                                add(build_shape(S, topo, carry, bvar, with_y, store, spell))
+                # histories with restarts: the instance is loaded again after the listed iterations
+                if thorough:
+                    plans = [(S, rl) for rl in ((1,), (9, 10), (11, 24))]
+                else:
+                    plans = [(S, (2, 10))] if S == 1 else []
+                for (S_, rl) in plans:
+                    add(build_shape(S_, topo, carry, bvs[0], bool(topo[4]), True, 'abs', rl))
     return out
 
 
